@@ -365,7 +365,7 @@ func features(r *R) [10]string {
 // ---------------------------------------------------------------- rapid: deeper terms and their mutants
 
 func TestRandomTerms(t *testing.T) {
-	rec.Check(t, rec.Scale(12000, 60000), func(t *rapid.T) {
+	rec.Check(t, rec.Scale(12000, 30000), func(t *rapid.T) {
 		depth := rapid.IntRange(1, rec.Scale(3, 4)).Draw(t, "depth")
 		a := genR(t, depth, "a")
 		rs := []*R{a}
